@@ -250,7 +250,9 @@ func (m *Matcher) direct(host, path string, useHost bool) (*RRoute, []KV, int) {
 }
 
 func (m *Matcher) adjusted(host, path string, useHost bool) (*RRoute, []KV, int) {
-	if path == "/" || path == "" {
+	// "for a request path other than '/'": the empty path (authority-form CONNECT, absolute-form target without a
+	// path) is eligible, adding a slash makes it "/"
+	if path == "/" {
 		return nil, nil, 0
 	}
 	s := &search{lax: m.LaxPrefixedCatchAll}
